@@ -179,7 +179,7 @@ func (m *ibtpModel) afterBlock(h uint64, txs []*pb.BxhTransaction, metas []*txMe
 		}
 		pm := m.pair(ib.From, ib.To)
 		id := fmt.Sprintf("%s-%s-%d", ib.From, ib.To, ib.Index)
-		if ib.Group != nil || pm.batch {
+		if oneToOne := m.txs[id]; (ib.Group != nil && !(ib.Category() == pb.IBTP_RESPONSE && oneToOne != nil && oneToOne.group == 0 && (s.grp == nil || s.grp.byChild[id] == nil))) || pm.batch {
 			continue // one-to-many children (and pairs carrying them) are handled by the group model
 		}
 		if !accepted {
@@ -345,7 +345,7 @@ func (m *ibtpModel) afterBlock(h uint64, txs []*pb.BxhTransaction, metas []*txMe
 	if ref.Meta != nil {
 		groupIDs := map[string]bool{}
 		for _, tx := range txs {
-			if ib := tx.IBTP; ib != nil && ib.Group != nil {
+			if ib := tx.IBTP; ib != nil && ib.Group != nil && ib.Category() == pb.IBTP_REQUEST {
 				groupIDs[fmt.Sprintf("%s-%s-%d", ib.From, ib.To, ib.Index)] = true
 			}
 		}
